@@ -39,6 +39,9 @@ Section ScalarUpdate.
     destruct (Nat.eqb_spec k l); [contradiction|reflexivity].
   Qed.
 
+  Lemma Psym_state_of : forall cs, Psym F (state_of Rops F cs).
+  Proof. intros cs i j Hi Hj. rewrite !sc_p by assumption. apply E_symmetric. Qed.
+
   Lemma nth_sf_update : forall cs z k, (k < n)%nat ->
       nth k (sf_update Rops F cs z) dflt = sc_update Rops (rstd cs k) (vgetR z k) (nth k cs dflt).
   Proof. intros. unfold sf_update. rewrite nth_map_seq by assumption. reflexivity. Qed.
@@ -65,7 +68,7 @@ Section ScalarUpdate.
           cbn [sc_update c_v]. unfold svar, sq. simplR. lra.
         * intros i Hi Hne. rewrite sc_p by lia. rewrite E_vp0 by (try assumption; lia). simplR.
           unfold Rdiv. lra.
-    - intros i j Hi Hj. rewrite code_update_cov by (try assumption; apply Sdiag_state_of).
+    - intros i j Hi Hj. rewrite code_update_cov by (try assumption; first [apply Sdiag_state_of | apply Psym_state_of]).
       unfold upd_cov. rewrite (sc_p F (sf_update Rops F cs z)) by assumption.
       destruct (index_split F i Hi) as [H|[k [Hk ->]]]; destruct (index_split F j Hj) as [H'|[k' [Hk' ->]]].
       + rewrite (Rsum_single n _ i); try assumption.
